@@ -1,8 +1,8 @@
 //@ tu: libxcm/tp/tls/cert.c libxcm/tp/tls/item.c common/slist.c
 //@ nondfcc: 1
 //@ defs: -DXV_STR_EXACT
-//@ pre-unwind: slist_split.0:6 strchrnul.0:6 strlen.0:6 harness.0:6 harness.1:6 slist_join.0:6 slist_join.1:6 strcpy.0:6 slist_destroy.0:7
-//@ bounded: input strings of 0..4 characters, any delimiter (0..5 pieces)
+//@ pre-unwind: slist_split.0:5 strchrnul.0:5 strlen.0:5 harness.0:5 harness.1:5 slist_join.0:5 slist_join.1:5 strcpy.0:5 slist_destroy.0:6
+//@ bounded: input strings of 0..3 characters, any delimiter other than NUL (0..4 pieces)
 //@ props: C10 C08
 //@ expect: assertion>=5 canary=4
 #include "_unit.h"
@@ -13,8 +13,8 @@ void harness(void)
 {
     xv_ghost_havoc(); xc_ghost_havoc();
     xv_heap_live = 0;
-    char s[5], d;
-    s[4] = 0;
+    char s[4], d;
+    s[3] = 0;
     __CPROVER_assume(d != 0);
     size_t len = 0, nd = 0, i;
     for (i = 0; s[i] != 0; i++) { len++; if (s[i] == d) nd++; }
@@ -36,8 +36,8 @@ void harness(void)
         ut_free(j);
     }
     if (len == 0) XV_CANARY("empty string");
-    if (len == 4 && nd == 4) XV_CANARY("only delimiters: five empty pieces");
-    if (len == 4 && nd == 0) XV_CANARY("one piece");
+    if (len == 3 && nd == 3) XV_CANARY("only delimiters: four empty pieces");
+    if (len == 3 && nd == 0) XV_CANARY("one piece");
     if (len == 3 && nd == 1 && s[1] == d) XV_CANARY("two pieces");
     slist_destroy(l);
     XV_ASSERT(xv_heap_live == 0, "PO[C08] slist_destroy.nothing_left");
